@@ -97,3 +97,27 @@ Proof.
   assert (Hv : run_frames (emitted evs) = Valid (ns_events o d ++ flat_map event_of_quad (d_stmts d))) by (unfold run_frames; eapply graphs_stream_valid_ns; eauto).
   destruct (valid_bytes_decode_delimited (emitted evs) _ grouped Hv Hsmall) as (A & B & _); [apply first_plain; eapply graphs_frames_plain; eauto|auto].
 Qed.
+
+(* ---- non-delimited output of the other stream classes ---- *)
+Theorem quads_bytes_round_trip_single (o : soptions) (s s' : stream) (d : sdata) (evs : list tev) (f : frame) (grouped : bool) :
+  stream_new QuadStream Generic o = Ok s -> cfg_ok o (st_logical s) -> fl_rows (st_flow s) = [] ->
+  quads_stream_frames d s = (s', evs) -> raised evs = None -> emitted evs = [f] -> small f ->
+  let r := parse_stream Generic grouped false (write_single f) in
+  flat_events r = ns_events o d ++ flat_map event_of_quad (d_stmts d) /\ pr_end r = PEnd.
+Proof.
+  intros Hnew Hcfg Hfresh Hrun Hraise Hone Hsmall.
+  pose proof (quads_stream_valid_ns _ _ _ _ _ Hnew Hcfg Hfresh Hrun Hraise) as Hv. rewrite Hone in Hv.
+  destruct (valid_bytes_decode_single f _ grouped Hv Hsmall) as (A & B & _). auto.
+Qed.
+
+Theorem graphs_bytes_round_trip_single (o : soptions) (s s' : stream) (d : sdata) (evs : list tev) (f : frame) (grouped : bool) :
+  stream_new GraphStream Generic o = Ok s -> cfg_ok o (st_logical s) -> fl_rows (st_flow s) = [] ->
+  forallb wf_quad (d_stmts d) = true ->
+  graphs_stream_frames_generic d s = (s', evs) -> raised evs = None -> emitted evs = [f] -> small f ->
+  let r := parse_stream Generic grouped false (write_single f) in
+  flat_events r = ns_events o d ++ flat_map event_of_quad (d_stmts d) /\ pr_end r = PEnd.
+Proof.
+  intros Hnew Hcfg Hfresh Hwf Hrun Hraise Hone Hsmall.
+  pose proof (graphs_stream_valid_ns _ _ _ _ _ Hnew Hcfg Hfresh Hwf Hrun Hraise) as Hv. rewrite Hone in Hv.
+  destruct (valid_bytes_decode_single f _ grouped Hv Hsmall) as (A & B & _). auto.
+Qed.
